@@ -256,6 +256,7 @@ def main(tier):
         err, skip = rand_err_skip(rng, tree, roots)
         scens.append({"id": i + 1, "tree": tree, "roots": roots, "threads": threads, "seed": rng.randrange(1 << 30),
                       "mode": rng.choice(["random", "pct", "pct"]), "quit": quit, "err": err, "skip": skip, "max_steps": 40000,
+                      "badparent": rng.random() < 0.25,
                       "pct_depth": rng.randint(1, 4), "pct_horizon": 20 + 8 * len(nodes)})
     results = run_recorder_parallel(scens, nproc=8)
     all_scens = list(scens)
